@@ -68,6 +68,17 @@ type Sim struct {
 	Mode     OrderMode
 	AdvSite  int32 // for OrderAdvSite: the site that is perturbed
 	AdvStyle int   // 0 reverse, 1 rotate, 2 uniform
+	AdvPick  bool  // choose AdvSite lazily: the AdvNth distinct range site met
+	AdvNth   int
+	seenSite map[int32]bool
+
+	// Lenient replay (used only while shrinking a schedule): when the trace
+	// does not fit the run any more, the rest of the run uses canonical order.
+	Lenient  bool
+	lenientOff bool
+
+	TotalSteps uint64
+	Switches   uint64
 
 	rng *RNG
 
@@ -114,6 +125,8 @@ func NewSim(seed uint64) *Sim {
 	s := &Sim{rng: NewRNG(seed), MaxDepth: 400, MaxSteps: 2000000, h: sha256.New(), Sites: map[int32]*SiteStat{}}
 	s.main = &Thread{ID: 0}
 	s.cur = s.main
+	s.AdvNth = int(Mix(seed, 7, "adv") % 16)
+	s.seenSite = map[int32]bool{}
 	return s
 }
 
@@ -138,6 +151,7 @@ func (s *Sim) ReplayLeftover() int {
 
 // ResetOp resets the per-operation step budget.
 func (s *Sim) ResetOp() {
+	s.TotalSteps += s.Steps
 	s.Steps = 0
 	if s.cur != nil {
 		s.cur.Steps = 0
@@ -187,8 +201,12 @@ func (s *Sim) Intn(n int, site int32) int {
 	}
 	var v int
 	if s.replaying {
-		ev := s.nextReplay("Y", site, n)
-		v = ev.V[0]
+		if ev, ok := s.nextReplay("Y", site, n); ok {
+			v = ev.V[0]
+			if v < 0 || v >= n {
+				v = 0
+			}
+		}
 	} else {
 		v = s.rng.Intn(n)
 	}
@@ -199,16 +217,28 @@ func (s *Sim) Intn(n int, site int32) int {
 	return v
 }
 
-func (s *Sim) nextReplay(k string, site int32, n int) Ev {
+func (s *Sim) nextReplay(k string, site int32, n int) (Ev, bool) {
+	if s.lenientOff {
+		return Ev{}, false
+	}
 	if s.rpos >= len(s.replay) {
+		if s.Lenient {
+			s.lenientOff = true
+			return Ev{}, false
+		}
 		panic(&Infra{fmt.Sprintf("replay divergence: trace exhausted at %s site=%d n=%d", k, site, n)})
 	}
 	ev := s.replay[s.rpos]
-	s.rpos++
-	if ev.K != k || ev.S != site || ev.N != n {
-		panic(&Infra{fmt.Sprintf("replay divergence at entry %d: trace has %s site=%d n=%d, run has %s site=%d n=%d", s.rpos-1, ev.K, ev.S, ev.N, k, site, n)})
+	if ev.K != k || ev.S != site || ev.N != n || (k == "P" && len(ev.V) != n) {
+		if s.Lenient {
+			s.lenientOff = true
+			s.rpos = len(s.replay)
+			return Ev{}, false
+		}
+		panic(&Infra{fmt.Sprintf("replay divergence at entry %d: trace has %s site=%d n=%d, run has %s site=%d n=%d", s.rpos, ev.K, ev.S, ev.N, k, site, n)})
 	}
-	return ev
+	s.rpos++
+	return ev, true
 }
 
 func (s *Sim) perm(site int32, n int) []int {
@@ -220,16 +250,20 @@ func (s *Sim) perm(site int32, n int) []int {
 		return p
 	}
 	if s.replaying {
-		ev := s.nextReplay("P", site, n)
-		if len(ev.V) != n {
-			panic(&Infra{"replay divergence: bad permutation length"})
+		if ev, ok := s.nextReplay("P", site, n); ok {
+			copy(p, ev.V)
 		}
-		copy(p, ev.V)
 	} else {
 		mode := s.Mode
 		style := -1
 		switch mode {
 		case OrderAdvSite:
+			if s.AdvPick && !s.seenSite[site] {
+				s.seenSite[site] = true
+				if len(s.seenSite)-1 == s.AdvNth {
+					s.AdvSite = site
+				}
+			}
 			if site == s.AdvSite {
 				style = s.AdvStyle
 			}
